@@ -336,3 +336,12 @@ def pq_bytes(fs, encoding="RLE_DICTIONARY", crc=True, empty_pages=(), rng=None):
         rgs.append(pq.RowGroupSpec(len([r for pg in rg[0] for r in pg]), cols))
     spec = pq.FileSpec(root, rgs)
     return pq.write_file(spec, rng or random.Random(1))
+
+
+def asan_summary(err):
+    """the informative lines of a sanitizer report (ERROR / SUMMARY / first frames inside the library)"""
+    if not err:
+        return ""
+    keep = [l.strip() for l in err.splitlines()
+            if "ERROR:" in l or "SUMMARY:" in l or "runtime error" in l or ("#" in l and "/src/" in l)]
+    return " | ".join(keep[:6]) if keep else err[-400:]
